@@ -66,10 +66,11 @@ Definition open_call (T : option N) (tr : trace) (a b s : N) : Prop := age T tr 
 Definition is_open (T : option N) (tr : trace) (a b s : N) : bool :=
   match age T tr a b s with Some _ => true | None => false end.
 
-(* histories on which the ledger is claimed to coincide with the bus's table: no file descriptors
-   attached, and method calls carry no REPLY_SERIAL.  (Outside this class a message can be refused AFTER
-   the table was updated; see C09_ledger_refuted_* in Props/C09.v, finding F7.) *)
-Definition plain_msg (m : msg) : bool := (m_nfds m =? 0) && (negb (is_call m) || (m_rserial m =? 0)).
+(* histories on which the ledger is claimed to coincide with the bus's table: method calls carry no REPLY_SERIAL.
+   (A call carrying a REPLY_SERIAL is treated as a reply first and can then still be refused by the duplicate / limit test
+   AFTER the table was updated; see C09_no_reply_refuted in Props/C09.v, finding F7b.  Before the fix for F7 messages with
+   unix fds had to be excluded as well.) *)
+Definition plain_msg (m : msg) : bool := negb (is_call m) || (m_rserial m =? 0).
 Definition plain_event (e : event) : bool := match e with ESend _ m => plain_msg m | _ => true end.
 Definition plain (h : list event) : bool := forallb plain_event h.
 
